@@ -108,6 +108,45 @@ Theorem switch_handover_all (state : Type) (evolve : list bool -> state -> Qc ->
     /\ snd (handover state evolve sws tprev x times t) = fold_left (fun _ h => snd h) (handed state evolve sws tprev x times t) x.
 Proof. intros times tprev x t. split; [apply switch_handover|]. split; [apply handed_is_previous_waveform | apply handover_last]. Qed.
 
+(* ---- the per-case verdict (numeric circuits, and symbolic circuits specialised at a rational point) ----
+   an empty verdict [case_items ... = []] of the generated cases_k.v MEANS: every certificate was accepted
+   (so, by q_model_sound, the model signal is the inverse transform of Lcapy's own s-domain value), Lcapy's
+   time function is that model signal with the step / t >= 0 bookkeeping of the flag model, every listed law
+   holds for the signals, and Analysis.causal is the model's.  For a circuit solved with SYMBOLIC element
+   values this is the statement at the substituted point: the specialised closed form satisfies the ODEs
+   and starts from the specialised initial state. *)
+Lemma idx_fail_nil {A} (f : A -> bool) base : forall l i, idx_fail f base i l = [] -> forall a, In a l -> f a = true.
+Proof. induction l as [|x r IH]; intros i H a Hin; [destruct Hin|]. cbn [idx_fail] in H. apply app_eq_nil in H. destruct H as [H1 H2].
+  destruct Hin as [E|Hin]; [subst x; destruct (f a); [reflexivity | discriminate H1] | exact (IH _ H2 a Hin)]. Qed.
+Definition case_models (qs : list (quant * fmode)) : list (dsig KI) := map (fun qm => q_model (fst qm)) qs.
+Theorem case_items_sound qs laws src zic c : case_items qs laws src zic c = [] ->
+  (forall qm, In qm qs -> forallb cert_okb (q_img (fst qm)) = true /\ q_same (fst qm) = true /\ flags_ok (snd qm) (q_obs (fst qm)) = true) /\
+  (forall l, In l laws -> claw_holds l (case_models qs)) /\
+  analysis_causal src zic = c.
+Proof. unfold case_items. cbv zeta. intros H.
+  apply app_eq_nil in H. destruct H as [H1 H]. apply app_eq_nil in H. destruct H as [H2 H].
+  apply app_eq_nil in H. destruct H as [H3 H]. apply app_eq_nil in H. destruct H as [H4 H5].
+  split; [|split].
+  - intros qm Hin. split; [exact (idx_fail_nil _ _ _ _ H1 qm Hin)|]. split; [exact (idx_fail_nil _ _ _ _ H2 qm Hin) | exact (idx_fail_nil _ _ _ _ H3 qm Hin)].
+  - intros l Hin. apply claw_chk_sound. exact (idx_fail_nil _ _ _ _ H4 l Hin).
+  - destruct (Bool.eqb (analysis_causal src zic) c) eqn:E; [apply eqb_prop; exact E | discriminate H5]. Qed.
+(* the model signal of every quantity of an accepted case is the inverse transform of its s-domain value *)
+Theorem case_models_are_inverses qs laws src zic c : case_items qs laws src zic c = [] ->
+  forall qm, In qm qs -> forall (E : Qc -> KI) (s : KI), (forall e, In e (q_img (fst qm)) -> peval (cert_A e) s <> (0 : KI)) ->
+  dLval E s (q_model (fst qm)) = img_sum E s (q_img (fst qm)).
+Proof. intros H qm Hin. destruct (case_items_sound _ _ _ _ _ H) as [Hq _]. destruct (Hq qm Hin) as [Hc _]. apply q_model_sound. exact Hc. Qed.
+(* an accepted case satisfies the capacitor ODE for t > 0 and starts from the (specialised) initial state *)
+Theorem case_capacitor_ode qs laws src zic c (Cv v0 : KI) jv ji : case_items qs laws src zic c = [] ->
+  In (LawC Cv v0 jv ji) laws -> Cv <> (0 : KI) ->
+  let i := qsig (case_models qs) 0%Qc ji in let v := qsig (case_models qs) 0%Qc jv in
+  (forall n p, rcoef n p (reg i) = rcoef n p (rscale Cv (Dord (reg v)))) /\
+  at0 (reg v) = v0 + scoef 0 (sing i) / Cv /\
+  (scoef 0 (sing i) = (0 : KI) -> at0 (reg v) = v0).
+Proof. intros H Hin HC i v. destruct (case_items_sound _ _ _ _ _ H) as [_ [Hl _]].
+  pose proof (claw_C_law _ _ _ _ _ (Hl _ Hin)) as Hlaw. fold i v in Hlaw.
+  destruct (time_law_C KI Cv v0 i v HC Hlaw) as [_ [R [_ [_ E0]]]]. split; [exact R|]. split; [exact E0|].
+  intros Hz. exact (continuity_C KI Cv v0 i v HC Hlaw Hz). Qed.
+
 (* non-vacuity: series RLC with s^2 + 2 s + 5 (R = 2, L = 1, C = 1/5) driven by a 10 V step:
    i = 5 e^{-t} sin 2t,  v_C = 10 - e^{-t} (10 cos 2t + 5 sin 2t)  satisfy the capacitor law with v0 = 0,
    and the capacitor voltage starts at 0 *)
@@ -128,3 +167,4 @@ Print Assumptions ode_from_sdomain. Print Assumptions sdomain_from_ode.
 Print Assumptions time_law_C_sdomain. Print Assumptions time_law_L_sdomain. Print Assumptions continuity.
 Print Assumptions causal_zero. Print Assumptions noncausal_cond. Print Assumptions switch_handover_all.
 Print Assumptions ex_law_C. Print Assumptions ex_starts_at_v0.
+Print Assumptions case_items_sound. Print Assumptions case_models_are_inverses. Print Assumptions case_capacitor_ode.
